@@ -47,23 +47,22 @@ def x86_cases(rnd):
         cs.append([0xB0 + r, rnd.getrandbits(8)])
         cs.append([0x31, 0xC0 + r * 9])
     cs += [[0xC3], [0x90]]
+    for d in (0, 8, -14, 0x100):
+        cs.append([0xFF, 0x25] + list((d & 0xffffffff).to_bytes(4, "little")))
     return cs
 
 
-def check_x86(rnd):
-    bad = []
-    n = 0
-    for bs in x86_cases(rnd):
-        n += 1
-        lines, err = llvm("x86_64", bs)
+def judge_x86(bs, must_decode=True):
+    if True:
         try:
             ins, used = isa.decode_x86(I8(bs))
         except isa.Undecodable as e:
-            bad.append((bs, "mine: undecodable %s; llvm: %s" % (e, lines)))
-            continue
+            return None, not must_decode, "mine: undecodable %s" % e
+        if not must_decode and (len(ins) != 1 or used != len(bs)):
+            return None, True, "mine: not one whole instruction"
+        lines, err = llvm("x86_64", bs)
         if len(lines) != 1 or len(ins) != 1 or used != len(bs):
-            bad.append((bs, "count mismatch mine=%s llvm=%s" % (ins, lines)))
-            continue
+            return "?", False, "count mismatch mine=%s llvm=%s" % (ins, lines)
         k, l = ins[0], lines[0]
         mn = l.split()[0]
         ok = False
@@ -91,8 +90,35 @@ def check_x86(rnd):
             ok = mn == "retq"
         elif k["mn"] == "nop":
             ok = mn == "nop"
+        elif k["mn"] == "call_rel":
+            ok = mn == "callq"
+        elif k["mn"] == "jmp_mem_rip":
+            m = re.match(r"jmpq\s+\*(-?\w+)?\(%rip\)", l)
+            ok = bool(m) and num(m.group(1) or "0") == k["disp"]
+        return k["mn"], ok, "mine=%s llvm=%s" % ({a: b for a, b in k.items() if a != "bits"}, l)
+
+
+def check_x86(rnd):
+    bad = []
+    cases = x86_cases(rnd)
+    n = len(cases)
+    for bs, (mn, ok, why) in zip(cases, pmap(judge_x86, cases)):
         if not ok:
-            bad.append((bs, "mine=%s llvm=%s" % ({a: b for a, b in k.items() if a != "bits"}, l)))
+            bad.append((bs, why))
+    near = []
+    seen = {tuple(c) for c in cases}
+    for bs in cases:
+        for i in range(min(len(bs), 3)):            # opcode / prefix / ModRM bytes; immediates carry no decoding decision
+            for b in range(8):
+                c = list(bs)
+                c[i] ^= 1 << b
+                if tuple(c) not in seen:
+                    seen.add(tuple(c))
+                    near.append(c)
+    for bs, (mn, ok, why) in zip(near, pmap(lambda x: judge_x86(x, False), near)):
+        n += mn is not None
+        if not ok:
+            bad.append((bs, "near-miss: " + why))
     return n, bad
 
 
@@ -116,6 +142,8 @@ def a64_cases(rnd):
         imm26 = rnd.getrandbits(26)
         ws.append((0b000101 << 26) | imm26)
         ws.append((0b100101 << 26) | imm26)
+    for _ in range(8):
+        ws.append((rnd.choice([0, 1]) << 30) | (0b011000 << 24) | (rnd.getrandbits(19) << 5) | rnd.randrange(31))
     for rn in (0, 8, 9, 16, 17, 30):
         ws += [0xd61f0000 | (rn << 5), 0xd65f0000 | (rn << 5), 0xd63f0000 | (rn << 5)]
     for _ in range(12):
@@ -126,19 +154,24 @@ def a64_cases(rnd):
     return ws
 
 
-def check_a64(rnd):
-    bad = []
-    n = 0
-    for w in a64_cases(rnd):
-        n += 1
+def judge_a64(w, must_decode=True):
+    """(claimed mnemonic or None, agrees with llvm-mc, detail) for one A64 word."""
+    if True:
         bs = list(w.to_bytes(4, "little"))
-        lines, err = llvm("aarch64", bs)
         try:
             ins = isa.decode_a64(I8(bs))
         except isa.Undecodable as e:
-            bad.append((hex(w), "mine: undecodable; llvm: %s" % lines))
-            continue
+            return None, not must_decode, "mine: undecodable"
         k = ins[0]
+        if k["mn"] == "data":
+            return None, not must_decode, "mine: data"
+        if not must_decode:
+            # a near miss only matters when the tables would also give it a meaning: decoding is deliberately wider than the simulator
+            try:
+                isa.simulate_a64(ins)
+            except isa.Undecodable:
+                return None, True, "mine: no semantics"
+        lines, err = llvm("aarch64", bs)
         l = lines[0] if lines else ""
         mn = l.split()[0] if l else "?"
         ok = False
@@ -171,62 +204,137 @@ def check_a64(rnd):
             m = re.match(r"adrp\s+x(\d+), #(-?\w+)", l)
             imm21 = const_of(tuple(k["immlo"]) + tuple(k["immhi"]))
             ok = bool(m) and int(m.group(1)) == k["rd"] and num(m.group(2)) == to_signed(imm21, 21) * 4096
+        elif k["mn"] == "ldr_lit":
+            m = re.match(r"ldr\s+([wx])(\d+), #(-?\w+)$", l)
+            ok = bool(m) and (m.group(1) == "x") == bool(k["x"]) and int(m.group(2)) == k["rt"] and num(m.group(3)) == to_signed(const_of(k["imm19"]), 19) * 4
         elif k["mn"] == "add_imm":
             m = re.match(r"(add|mov)\s+(x\d+|sp), (x\d+|sp)(?:, #(\w+))?(?:, lsl #12)?", l)
             ok = bool(m)          # operand aliasing (mov x, sp) makes a field-wise comparison noisy; mnemonic class only
+        return k["mn"], ok, "mine=%s llvm=%s" % ({a: b for a, b in k.items() if a != "bits"}, l)
+
+
+def neighbours(w, nbits):
+    return [w ^ (1 << i) for i in range(nbits)]
+
+
+def pmap(f, xs):
+    from concurrent.futures import ThreadPoolExecutor
+    with ThreadPoolExecutor(max_workers=16) as ex:
+        return list(ex.map(f, xs))
+
+
+def check_a64(rnd):
+    bad = []
+    cases = a64_cases(rnd)
+    for w, (mn, ok, why) in zip(cases, pmap(judge_a64, cases)):
         if not ok:
-            bad.append((hex(w), "mine=%s llvm=%s" % ({a: b for a, b in k.items() if a != "bits"}, l)))
-    return n, bad
+            bad.append((hex(w), why))
+    # near misses: every single-bit neighbour of every corpus word - whatever the table still claims to recognise, llvm-mc must read the same way
+    near = sorted({x for w in cases for x in neighbours(w, 32)} - set(cases))
+    claimed = 0
+    for w, (mn, ok, why) in zip(near, pmap(lambda x: judge_a64(x, False), near)):
+        if mn is not None:
+            claimed += 1
+        if not ok:
+            bad.append((hex(w), "near-miss: " + why))
+    return len(cases) + claimed, bad
+
+
+A32_CASES = [0xE51F9000, 0xE12FFF19, 0xE59FC000, 0xE51FC004, 0xE12FFF1C, 0xE1A00000, 0xE320F000, 0xE59F0004, 0xE12FFF10]
+T32_CASES = [[0x4F00], [0x4F01], [0x4800], [0x4738], [0x4760], [0x4770], [0x46C0], [0xBF00], [0xF8DF, 0xC004], [0xF85F, 0x7008], [0xF8DF, 0x0000], [0x4780]]
+ARM_REGS = {"r%d" % i: i for i in range(16)}
+ARM_REGS.update({"ip": 12, "sp": 13, "lr": 14, "pc": 15, "sb": 9, "sl": 10, "fp": 11})
+
+
+def judge_a32(w, must_decode=True):
+    bs = list(w.to_bytes(4, "little"))
+    try:
+        k = isa.decode_a32(I8(bs))[0]
+    except isa.Undecodable as e:
+        return None, not must_decode, "mine: undecodable (%s)" % e
+    if k["mn"] == "data":
+        return None, not must_decode, "mine: data"
+    lines, _ = llvm("armv7", bs)
+    l = lines[0] if lines else ""
+    ok = False
+    if k["mn"] == "ldr_lit":
+        m = re.match(r"ldr\s+(\w+), \[pc(?:, #(-?)(\w+))?\]$", l)
+        ok = bool(m) and ARM_REGS.get(m.group(1)) == k["rt"] and int(m.group(3) or "0", 0) == k["imm"] and (((m.group(2) or "") == "-") == (k["u"] == 0))
+    elif k["mn"] == "bx":
+        m = re.match(r"bx\s+(\w+)$", l)
+        ok = bool(m) and ARM_REGS.get(m.group(1)) == k["rm"]
+    elif k["mn"] == "nop":
+        ok = bool(l) and (l.split()[0] == "nop" or re.match(r"mov\s+r0, r0$", l) is not None)
+    elif k["mn"] == "mov_imm":
+        m = re.match(r"mov\s+(\w+), #(-?\w+)$", l)
+        ok = bool(m) and ARM_REGS.get(m.group(1)) == k["rd"]
+    return k["mn"], ok, "A32 mine=%s llvm=%s" % (k, l)
+
+
+def judge_t32(hws, must_decode=True):
+    bs = []
+    for h in hws:
+        bs += list(h.to_bytes(2, "little"))
+    try:
+        ks = isa.decode_t32(I8(bs))
+    except isa.Undecodable as e:
+        return None, not must_decode, "mine: undecodable (%s)" % e
+    k = ks[0]
+    if k["mn"] == "data":
+        return None, not must_decode, "mine: data"
+    if k.get("len", 2) != 2 * len(hws):
+        if len(hws) == 2 and k.get("len", 2) == 2:
+            hws = hws[:1]                    # a flipped first halfword turned a 32-bit encoding into a 16-bit one: judge that one
+            bs = bs[:2]
+        else:
+            return k["mn"], False, "T32 length: mine=%s for %s" % (k, hws)
+    lines, _ = llvm("thumbv7", bs)
+    l = lines[0] if lines else ""
+    ok = False
+    if k["mn"] == "ldr_lit":
+        m = re.match(r"ldr(?:\.w)?\s+(\w+), \[pc(?:, #(-?)(\w+))?\]$", l)
+        ok = bool(m) and ARM_REGS.get(m.group(1)) == k["rt"] and int(m.group(3) or "0", 0) == k["imm"] and (((m.group(2) or "") == "-") == (k["u"] == 0))
+    elif k["mn"] in ("bx", "blx"):
+        m = re.match(r"(bx|blx)\s+(\w+)$", l)
+        ok = bool(m) and m.group(1) == k["mn"] and ARM_REGS.get(m.group(2)) == k["rm"]
+    elif k["mn"] in ("nop", "nop_hint"):
+        ok = l.startswith("nop") or re.match(r"mov\s+r8, r8$", l) is not None
+    elif k["mn"] == "mov_reg":
+        m = re.match(r"mov\s+(\w+), (\w+)$", l)
+        ok = bool(m) and ARM_REGS.get(m.group(1)) == k["rd"] and ARM_REGS.get(m.group(2)) == k["rm"]
+    return k["mn"], ok, "T32 mine=%s llvm=%s" % (k, l)
 
 
 def check_arm(rnd):
     bad = []
     n = 0
-    # A32
-    for w in [0xE51F9000, 0xE12FFF19, 0xE59FC000, 0xE51FC004, 0xE12FFF1C, 0xE1A00000, 0xE320F000, 0xE59F0004, 0xE12FFF10]:
+    for w, (mn, ok, why) in zip(A32_CASES, pmap(judge_a32, A32_CASES)):
         n += 1
-        bs = list(w.to_bytes(4, "little"))
-        lines, _ = llvm("armv7", bs)
-        k = isa.decode_a32(I8(bs))[0]
-        l = lines[0] if lines else ""
-        ok = False
-        if k["mn"] == "ldr_lit":
-            m = re.match(r"ldr\s+(\w+), \[pc(?:, #(-?)(\w+))?\]", l)
-            regs = {"r%d" % i: i for i in range(16)}
-            regs.update({"r12": 12, "ip": 12, "sp": 13, "lr": 14, "pc": 15})
-            ok = bool(m) and regs.get(m.group(1)) == k["rt"] and int(m.group(3) or "0", 0) == k["imm"] and (((m.group(2) or "") == "-") == (k["u"] == 0))
-        elif k["mn"] == "bx":
-            m = re.match(r"bx\s+(\w+)", l)
-            ok = bool(m) and {"r12": 12, "ip": 12, "lr": 14}.get(m.group(1), int(m.group(1)[1:]) if m.group(1)[1:].isdigit() else -1) == k["rm"]
-        elif k["mn"] == "nop":
-            ok = l.split()[0] in ("nop", "mov")
         if not ok:
-            bad.append((hex(w), "A32 mine=%s llvm=%s" % (k, l)))
-    # T32
-    for hws in [[0x4F00], [0x4F01], [0x4800], [0x4738], [0x4760], [0x4770], [0x46C0], [0xBF00], [0xF8DF, 0xC004], [0xF85F, 0x7008], [0xF8DF, 0x0000], [0x4780]]:
+            bad.append((hex(w), why))
+    for hws, (mn, ok, why) in zip(T32_CASES, pmap(judge_t32, T32_CASES)):
         n += 1
-        bs = []
-        for h in hws:
-            bs += list(h.to_bytes(2, "little"))
-        lines, _ = llvm("thumbv7", bs)
-        k = isa.decode_t32(I8(bs))[0]
-        l = lines[0] if lines else ""
-        regs = {"r%d" % i: i for i in range(16)}
-        regs.update({"ip": 12, "sp": 13, "lr": 14, "pc": 15})
-        ok = False
-        if k["mn"] == "ldr_lit":
-            m = re.match(r"ldr(?:\.w)?\s+(\w+), \[pc(?:, #(-?)(\w+))?\]", l)
-            ok = bool(m) and regs.get(m.group(1)) == k["rt"] and int(m.group(3) or "0", 0) == k["imm"] and (((m.group(2) or "") == "-") == (k["u"] == 0))
-        elif k["mn"] in ("bx", "blx"):
-            m = re.match(r"(bx|blx)\s+(\w+)", l)
-            ok = bool(m) and m.group(1) == k["mn"] and regs.get(m.group(2)) == k["rm"]
-        elif k["mn"] in ("nop", "nop_hint"):
-            ok = l.startswith("nop") or l.startswith("mov\tr8, r8") or re.match(r"mov\s+r8, r8", l) is not None
-        elif k["mn"] == "mov_reg":
-            m = re.match(r"mov\s+(\w+), (\w+)", l)
-            ok = bool(m) and regs.get(m.group(1)) == k["rd"] and regs.get(m.group(2)) == k["rm"]
         if not ok:
-            bad.append((["%04x" % h for h in hws], "T32 mine=%s llvm=%s" % (k, l)))
+            bad.append((["%04x" % h for h in hws], why))
+    # near misses (every single-bit neighbour of every corpus encoding)
+    near = sorted({x for w in A32_CASES for x in neighbours(w, 32)} - set(A32_CASES))
+    for w, (mn, ok, why) in zip(near, pmap(lambda x: judge_a32(x, False), near)):
+        n += mn is not None
+        if not ok:
+            bad.append((hex(w), "near-miss: " + why))
+    near_t = []
+    for hws in T32_CASES:
+        v = 0
+        for i, h in enumerate(hws):
+            v |= h << (16 * i)
+        for x in neighbours(v, 16 * len(hws)):
+            c = [(x >> (16 * i)) & 0xffff for i in range(len(hws))]
+            if c not in T32_CASES and c not in near_t:
+                near_t.append(c)
+    for hws, (mn, ok, why) in zip(near_t, pmap(lambda x: judge_t32(x, False), near_t)):
+        n += mn is not None
+        if not ok:
+            bad.append((["%04x" % h for h in hws], "near-miss: " + why))
     return n, bad
 
 
